@@ -78,6 +78,7 @@ def generate(rng, tier):
     out += [sc.gen_dynamic(rng, faults=(rng.random() < 0.4)) for _ in range(250 * n)]
     out += sc.gen_broad(rng, 150 * n)
     out += sc.gen_hookraise(rng, 80 * n)
+    out += sc.gen_manual(rng, 60 * n)
     return out
 
 
